@@ -27,6 +27,7 @@ struct Live
     AnnotatorPtr annotator;
     ImporterPtr importer;
     ValidatorPtr validator;
+    AnalyserExternalVariablePtr ev; // an external variable with dependencies from the universe
     VariablePtr lastVariable; // held strongly on purpose only while it is the "other" variable of the next call
     std::weak_ptr<Variable> previous;
 };
@@ -757,6 +758,58 @@ inline std::vector<SvcEntry> buildSvcTable()
         l.generator->setModel(l.am);
         l.generator->interfaceCode();
         l.generator->implementationCode();
+        l.previous = v;
+    });
+    // An external variable remembers its dependencies; they are looked up by (model, component name, variable name) - the
+    // answer must follow where the dependency is NOW (its component may have been moved to another model, renamed, emptied).
+    recv("Live.ExternalVariable.dependencies", K_VAR, 0, [=](Svc &s) {
+        auto &l = *s.live;
+        auto v = std::dynamic_pointer_cast<Variable>(s.recv);
+        auto modelOf = [](const VariablePtr &x) {
+            ModelPtr m;
+            for (ParentedEntityPtr p = x != nullptr ? x->parent() : nullptr; p != nullptr; p = p->parent()) {
+                if (auto pm = std::dynamic_pointer_cast<Model>(p)) {
+                    m = pm;
+                }
+            }
+            return m;
+        };
+        if (l.ev == nullptr) {
+            if (modelOf(v) != nullptr) {
+                l.ev = AnalyserExternalVariable::create(v);
+            }
+            return;
+        }
+        if (s.variant % 3 == 0) {
+            size_t before = l.ev->dependencyCount();
+            bool r = l.ev->addDependency(v);
+            s.expect(l.ev->dependencyCount() == before + (r ? 1 : 0), "addDependency() returned " + str(r) + " but the count went from " + str(before) + " to " + str(l.ev->dependencyCount()));
+        }
+        auto comp = std::dynamic_pointer_cast<Component>(v->parent());
+        std::string cname = nameOf(comp), vname = v->name();
+        std::vector<ModelPtr> asked {modelOf(v), modelOf(l.ev->variable()), modelOf(l.previous.lock())};
+        for (auto &mm : asked) {
+            if (mm == nullptr) {
+                continue;
+            }
+            size_t matches = 0;
+            for (size_t i = 0; i < l.ev->dependencyCount(); ++i) {
+                auto d = l.ev->dependency(i);
+                auto dc = d != nullptr ? std::dynamic_pointer_cast<Component>(d->parent()) : nullptr;
+                if (d != nullptr && dc != nullptr && modelOf(d) == mm && dc->name() == cname && d->name() == vname) {
+                    ++matches;
+                }
+            }
+            bool has = l.ev->containsDependency(mm, cname, vname);
+            auto got = l.ev->dependency(mm, cname, vname);
+            s.expect(has == (matches > 0), "containsDependency(model '" + mm->name() + "', '" + cname + "', '" + vname + "') returned " + str(has) + " but " + str(matches) + " dependencies are there now");
+            s.expect((got != nullptr) == (matches > 0), "dependency(model, component, variable) null-ness disagrees with where the dependencies are now");
+            if (s.variant % 4 == 1) {
+                size_t before = l.ev->dependencyCount();
+                bool r = l.ev->removeDependency(mm, cname, vname);
+                s.expect(r == (matches > 0) && l.ev->dependencyCount() + (r ? 1 : 0) == before, "removeDependency(model, component, variable) returned " + str(r) + " with " + str(matches) + " matching dependencies; count " + str(before) + " -> " + str(l.ev->dependencyCount()));
+            }
+        }
         l.previous = v;
     });
     recv("Live.Annotator.setModel", K_MODEL, 0, [=](Svc &s) {
